@@ -161,6 +161,7 @@ def run(repo: Repo, rep, tier: str):
                   "entry per candle; the single value is structurally the last entry of the series (same expression on the same inputs; "
                   "the `None if isnan(x[-1])` idiom accepted); on an input longer than the warm-up window the single value depends only "
                   "on the trailing window (input sliced)")
+    rep.assume("x[~isnan(x)] (NaN-stripping of a warm-up padded series): a computed element is taken to be a number, only the constant NaN padding is removed (generic finite inputs)")
     rep.assume("structural equality of the two computations implies equal values; structurally different computations of the single value are undecided unless they provably ignore the newest candle / read before the window")
     inds = [(n, rel, fn) for n, rel, fn in IR.public_indicators(repo) if any(a.arg == "sequential" for a in fn.args.args)]
     pub = {fn.name: n for n, rel, fn in inds}
